@@ -32,6 +32,7 @@ mod probe;
 mod rng;
 mod sexp;
 mod util;
+mod unify;
 
 fn main() {
     let argv: Vec<String> = std::env::args().collect();
@@ -64,6 +65,7 @@ fn main() {
         "c14" => c14::main(&args),
         "dce" => dce::main(&args),
         "gocomp" => gocomp::main(&args),
+        "unify" => unify::main(&args),
         "probe" => probe::main(&args),
         "stages" => probe::stages(&args),
         "golden" => probe::golden(&args),
